@@ -4,7 +4,7 @@ import numpy as np
 from vk.specs import tree as T
 from vk.specs import treeuniv as TU
 from vk.symx import shims as SH
-from vk.symx.harness import decide, decide_true, native_cond
+from vk.symx.harness import decide, decide_true, native_cond, native_pair
 from vk.symx.poly import Poly, VarFactory
 
 
@@ -140,7 +140,45 @@ def prove(run):
                                                                "as for the identities of this case"))
                     except Exception as ex:
                         decide_true(run, f"post:TTNS:total@{tag}", "TTNS (symbolic run)", False, f"the code under test raised on symbolic tensors: {type(ex).__name__}: {ex}", case)
-    run.extra.setdefault("symx", {})["C11"] = {"tree_cases": ncase, "shims": SH.TREE_SHIMS,
+                # ---- kernel-stub mode: gauge moves and lossless compression around trivially factorised blocks (bookkeeping for all tensor values)
+                from renormalizer.utils import CompressConfig, CompressCriteria
+                big = CompressConfig(CompressCriteria.fixed, max_bonddim=10 ** 4)
+
+                def lossless(x):
+                    x.canonicalise()
+                    x.compress_config = big
+                    x.compress()
+                    return x
+
+                def push_round_trip(x):
+                    x.canonicalise()
+                    for node in list(x.node_list):
+                        if node.parent is not None and not node.children:
+                            x.push_cano_to_child(node.parent, node.parent.children.index(node))
+                            x.push_cano_to_parent(node)
+                    return x
+                kops = [("canonicalise", "TTNS.canonicalise", lambda x: (x.canonicalise(), x)[1]), ("lossless_compress", "TTNS.compress", lossless),
+                        ("push_centre_to_leaf_and_back", "TTNS.push_cano_to_child", push_round_trip),
+                        ("sum_then_canonicalise", "TTNS.canonicalise", None)]
+                with SH.kernel_stub_mode_tree():
+                    va = dn(a)
+                    for opname, fn, f in kops:
+                        try:
+                            if f is None:
+                                c = a.add(b)
+                                ref_ = dn(c)
+                                c.canonicalise()
+                                nat = native_pair(lambda: (lambda c_: (dn((c_.canonicalise(), c_)[1]), dn(a0c) + dn(b0c)))(a0c.copy().add(b0c.copy())), "as for the identities of this case")
+                            else:
+                                c = f(a.copy())
+                                ref_ = va
+                                nat = native_pair((lambda f_: lambda: (dn(f_(a0c.copy())), dn(a0c)))(f), "as for the identities of this case; real LAPACK kernels")
+                        except Exception as ex:
+                            decide_true(run, f"post:{fn}:{opname}:total@{tag}", fn, False, f"raised on symbolic tensors with stubbed kernels: {type(ex).__name__}: {ex}", case)
+                            continue
+                        decide(run, f"post:{fn}:{opname}:object_unchanged@{tag}", fn, dn(c), ref_, case, numeric_replay=nat)
+                        decide_true(run, f"post:{fn}:{opname}:labels_valid@{tag}", fn, not T.qnv_tree_violations(c), f"{T.qnv_tree_violations(c)[:1]}", case)
+    run.extra.setdefault("symx", {})["C11"] = {"tree_cases": ncase, "shims": SH.TREE_SHIMS, "kernel_stubs": SH.KERNEL_STUBS,
                                                "shape_universe": f"every rooted ordered tree shape with 2..{nmax} nodes x {{spin+qn, electron-phonon}} payloads "
                                                                  "(1-2 basis sets per node, dummy nodes), bond dimension <= 2, one sector; all tensor entries allowed "
                                                                  "by the labels are independent complex indeterminates"}
